@@ -144,7 +144,7 @@ class CHECK(core.Check):
             "with peers drawn from 3 addresses (so they repeat), serviceAccepts / serviceAxes / serviceCxes / "
             "serviceConnects / serviceAll, shutdownIx, closeIx, closeAllIx, removeIx(shutclose 0|1). Exhaustive: every "
             "sequence of length <= 4 (quick) / <= 5 (thorough) over 9 operations, on both servers; random: histories of up "
-            "to 40 operations, 5% malformed arrivals. Non-trivial = some address was accepted twice or an entry was "
+            "to 40 operations, 5% malformed arrivals; plus every batch of 2-3 arrivals from 2 addresses drained by a single service call.  Non-trivial = some address was accepted twice or an entry was "
             "closed/removed after being accepted; distinct by the whole case.")
     TRUSTED = ["correspondence: the real Server / ServerTls run in-process with .ss replaced by a listen double and socket "
                "doubles (ssl context stub whose wrap_socket returns the double); table contents and every double's "
@@ -174,6 +174,12 @@ class CHECK(core.Check):
            ["remove", 5, 1], ["remove", 5, 0], ["shutdown", 5], ["accepts"]]
 
     def exhaustive(self, tier):
+        # several accepts pending when one service call drains them, repeated addresses among them
+        for tls in (0, 1):
+            for peers in itertools.chain(itertools.product((5, 6), repeat=2), itertools.product((5, 6), repeat=3)):
+                for pre in ([], [["arrive", 5, EHA, 5, "d"], ["connects"]]):
+                    for call in (["connects"], ["axes"], ["all"]):
+                        yield {"tls": tls, "ops": pre + [["arrive", p, EHA, p, "d"] for p in peers] + [call, ["connects"]]}
         L = 5 if tier == "thorough" else 4
         for tls in (0, 1):
             for n in range(1, L + 1):
@@ -288,9 +294,23 @@ class CHECK(core.Check):
             if op[0] in ("axes", "connects", "all"):
                 waiting = prev_ax + list(range(nsock - prev_pend, nsock))     # what this call has to process
                 wellformed = all(reported[s] == peer_of[s] and (not case["tls"] or sockname[s] == EHA) for s in waiting)
-                excused = {"ok", "ERR HandshakeError", "ERR AttributeError"} | (set() if wellformed else {"ERR ValueError"})
+                excused = {"ok", "ERR HandshakeError"} | (set() if wellformed else {"ERR ValueError"})
+                # AttributeError has two sources outside this property: serviceAll reading from an entry that closeIx
+                # left socket-less in the table, and a TLS handshake retried on an incomer that a failed handshake closed
+                closed_entry = any(e[2] == 0 for e in ix)
+                dead_handshake = any(e[2] == 0 for e in cx) or any(e[2] == 0 for e in prev_cx)
+                if (op[0] == "all" and closed_entry) or (case["tls"] and dead_handshake):
+                    excused.add("ERR AttributeError")
                 if status not in excused:
                     return "%s: accepting raised %s" % (what, status[4:])
+                if status in ("ok", "ERR AttributeError") and ax == ".":
+                    # every connection this call accepted is now an entry (table or pending handshakes), or - displaced
+                    # by a later one from the same address - has been shut down: no accepted socket is simply dropped
+                    held = {e[1] for e in ix} | {e[1] for e in cx}
+                    for sk in waiting:
+                        if sk not in held and socks[sk][0] == 0 and not socks[sk][1]:
+                            return ("%s: accepted socket %d (address %d) is neither in the table nor shut down"
+                                    % (what, sk, peer_of[sk]))
                 if status == "ok" and not case["tls"]:
                     last = {}
                     for s in waiting:
